@@ -34,7 +34,9 @@ def gen_cases(rnd, n, lang):
         ih = ['id', 'name two', 'n3'][:rnd.choice([2, 3])]
         jh = ['id', 'val']
         A = [['1', 'x', 'p'][:len(ih)], ['2', 'y', 'q'][:len(ih)], ['1', 'x', 'p'][:len(ih)]]
-        B = [['1', 'u'], ['2', 'v']]
+        # the join table may be empty or have no partner at all: under LEFT JOIN the null record must still be as wide as the join header
+        B = rnd.choice([[['1', 'u'], ['2', 'v']], [['1', 'u'], ['2', 'v']], [], [['9', 'w']]])
+        left = rnd.random() < 0.4
         mode = rnd.choice(['plain', 'plain', 'distinct', 'dcount', 'top', 'group', 'except'])
         if mode == 'except' and join:
             join = False
@@ -103,7 +105,7 @@ def gen_cases(rnd, n, lang):
             head += 'top 2 '
         text = head + ', '.join(texts)
         if join:
-            text += ' join b on a1 == b1'
+            text += (' left join b on a1 == b1' if left else ' join b on a1 == b1')
         if mode == 'group':
             text += ' group by a1'
         cases.append({'text': text, 'dc': dc, 'ih': ih if has_header else None, 'jh': (jh if has_header else None) if join else None, 'infos': infos, 'except': None,
@@ -161,6 +163,76 @@ for c in cases:
 import shutil; shutil.rmtree(d, ignore_errors=True)
 print(json.dumps(out))
 '''
+
+
+IMPL_JS = r"""
+const path = require('path');
+const repo = process.env.VERIF_REPO || '/repo';
+const rbql = require(path.join(repo, 'rbql-js', 'rbql.js'));
+let data = '';
+process.stdin.on('data', d => data += d);
+process.stdin.on('end', async () => {
+    const cases = JSON.parse(data);
+    const out = [];
+    for (const c of cases) {
+        const rows = [], w = [], names = [];
+        try {
+            await rbql.query_table(c.text, c.A.map(r => r.slice()), rows, w, c.B === null ? null : c.B.map(r => r.slice()), c.ih, c.jh, names);
+            const widths = Array.from(new Set(rows.map(r => r.length))).sort((a, b) => a - b);
+            out.push({table: {header: names.length ? names : null, widths: widths}});
+        } catch (e) {
+            out.push({table: {err: (e.constructor ? e.constructor.name : 'Error') + ': ' + String(e.message === undefined ? e : e.message).slice(0, 80)}});
+        }
+    }
+    console.log(JSON.stringify(out));
+});
+"""
+
+
+def run_impl_js(cases):
+    env = common.impl_env()
+    r = subprocess.run([common.NODE, '-e', IMPL_JS], input=json.dumps(cases).encode(), env=env, stdout=subprocess.PIPE, stderr=subprocess.PIPE, timeout=900)
+    try:
+        return json.loads(r.stdout.decode().strip().split('\n')[-1])
+    except (ValueError, IndexError):
+        raise RuntimeError('js header driver failed: ' + r.stderr.decode()[-400:])
+
+
+def compare_table(c, m, t):
+    """header of query_table against the model's queryHeader, and against the width of every output record"""
+    if 'err' in m:
+        if 'err' not in t or 'star' not in t['err']:
+            return 'model: star and alias without header must be rejected; implementation: %s' % t
+        return None
+    if 'err' in t:
+        return 'implementation raised: %s' % t['err']
+    mh = m['header']
+    ih = t['header'] if t['header'] else None
+    if (mh or None) != ih:
+        return 'header differs: model %s, implementation %s' % (mh, ih)
+    if ih is not None and t['widths'] and t['widths'] != [len(ih)]:
+        return 'header has %d names but records have %s fields' % (len(ih), t['widths'])
+    return None
+
+
+def js_leg(res, rnd, n):
+    cases = gen_cases(rnd, n, 'js')
+    # rbql-js has no a['name'] / a["name"]-with-space difference, and aggregates are spelled the same; GROUP BY of `max(a1)` is Math-free
+    mout = model_headers(cases)
+    iout = run_impl_js(cases)
+    res.evaluations += len(cases)
+    nbad = 0
+    for c, m, o in zip(cases, mout, iout):
+        if c['nkinds'] >= 2 or c['except'] is not None:
+            res.nontrivial.add('js|' + c['text'] + '|' + json.dumps(c['ih']))
+        why = compare_table(c, m, o['table'])
+        if why:
+            nbad += 1
+            if nbad <= 5:
+                res.violations.append({'property': 'C07', 'impl': 'js', 'why': why, 'query_js': c['text'], 'input_header': c['ih'], 'join_header': c['jh'], 'kinds': c['infos'],
+                                       'A': c['A'], 'B': c['B'], 'model_says': m, 'impl_says': o, 'case_key': 'C07|js|' + c['text'] + '|' + json.dumps(c['ih'])})
+    res.count('js_cases', len(cases))
+    res.count('js_disagreements', nbad)
 
 
 def run_impl_py(cases):
@@ -227,6 +299,7 @@ def run(res, tier, seed):
                 res.violations.append({'property': 'C07', 'impl': 'py', 'why': why, 'query_py': c['text'], 'input_header': c['ih'], 'join_header': c['jh'], 'kinds': c['infos'],
                                        'A': c['A'], 'B': c['B'], 'model_says': m, 'impl_says': o, 'case_key': 'C07|' + c['text'] + '|' + json.dumps(c['ih'])})
     res.count('disagreements', nbad)
+    js_leg(res, random.Random(seed * 31 + 8), 1500 if tier == 'quick' else 20000)
     res.count('csv_checked', sum(1 for c in cases if c['csv']))
     res.count('pandas_checked', sum(1 for c in cases if c['pandas']))
 
